@@ -368,8 +368,6 @@ var allowedPrefixes = []string{
 	"github.com/cosmos/cosmos-sdk/types.NewDecCoin",
 	"github.com/cosmos/cosmos-sdk/types.WrapServiceResult",
 	"github.com/cosmos/cosmos-sdk/types.MustSortJSON",
-	"(github.com/cosmos/cosmos-sdk/types.AccAddress).Equals",
-	"(github.com/cosmos/cosmos-sdk/types.AccAddress).Empty",
 	"golang.org/x/exp/slices.", "golang.org/x/exp/constraints.",
 }
 
